@@ -142,6 +142,31 @@ def uniq_ids(items: List[Dict[str, Any]]) -> List[Dict[str, Any]]:
     return out
 
 
+def program_strategy():
+    """a history on ONE batch object: construct, then append / extend / serialise / read steps in any order"""
+    def build(target, items, ops):
+        # ids stay unique over the whole history (duplicate ids are C06's / C08's subject)
+        flat = list(items)
+        for o in ops:
+            flat += o.get('items', [])
+        keep = {id(x) for x in uniq_ids(flat)}
+        items = [x for x in items if id(x) in keep]
+        ops = [{**o, 'items': [x for x in o['items'] if id(x) in keep]} if 'items' in o else o for o in ops]
+        return {'kind': 'batch_program', 'target': target, 'initial': items, 'ops': ops}
+
+    def for_target(target, item):
+        op = st.one_of(
+            st.builds(lambda x: {'op': 'append', 'items': [x]}, item),
+            st.builds(lambda xs: {'op': 'extend', 'items': xs}, st.lists(item, max_size=3)),
+            st.builds(lambda how: {'op': 'serialise', 'how': how}, st.sampled_from(['to_json', 'JSONEncoder', 'server.JSONEncoder'])),
+            st.just({'op': 'read'}),
+        )
+        return st.builds(build, st.just(target), st.lists(item, max_size=3), st.lists(op, min_size=1, max_size=6))
+
+    ids = st.one_of(st.integers(0, 9), jg.valid_ids())
+    return st.one_of(for_target('request', request_strategy(ids)), for_target('response', response_strategy(ids)))
+
+
 ERROR_CLS = ['JsonRpcError', 'JsonRpcError', 'PlainBase', 'IndepBase']
 
 
@@ -159,7 +184,10 @@ class C05(Check):
         "reference serialiser computes the expected wire dict from the constructor arguments; to_json, json.dumps(to_json()), "
         "json.dumps(obj, cls=pjrpc.JSONEncoder) and the server encoder must all give it; from_json(json.loads(text)) must give equal "
         "fields, the expected error class, and an identical second to_json. non-trivial = non-scalar payload, or an edge (null result, "
-        "null/absent data, empty params, code 0, empty message, id 0 or ''), or a batch of >= 2; distinct = distinct case spec."
+        "null/absent data, empty params, code 0, empty message, id 0 or ''), or a batch of >= 2; distinct = distinct case spec. "
+        "batch_program cases: ONE BatchRequest / BatchResponse object taken through a history of append / extend / serialise (three encoders) / "
+        "read steps; at every serialisation and at the end the wire form must be the reference form of exactly the elements added so far "
+        "(non-trivial = the batch grew after it had been serialised)."
     )
     assumptions = [
         "constructor arguments are within the documented types (ids: str | int | None; params: list | tuple | dict | None)",
@@ -169,7 +197,8 @@ class C05(Check):
     trusted_base = ['reference serialiser in checks/c05.py', 'python json']
     required_classes = ['request', 'response/result', 'response/error', 'error', 'batch_request', 'batch_response', 'batch_error',
                         'error_cls/PlainBase', 'error_cls/IndepBase', 'edge/null-result', 'edge/absent-data', 'edge/null-data',
-                        'edge/empty-params', 'edge/code-0', 'edge/empty-message', 'batch_request/empty']
+                        'edge/empty-params', 'edge/code-0', 'edge/empty-message', 'batch_request/empty', 'batch_program/request', 'batch_program/response',
+                        'batch_program/grown-after-serialisation']
 
     def strategy(self, tier: str):
         ecls = st.sampled_from(ERROR_CLS)
@@ -181,6 +210,7 @@ class C05(Check):
             st.builds(lambda rs, c: {'kind': 'batch_response', 'responses': uniq_ids(rs), 'error_cls': c},
                       st.lists(response_strategy(st.one_of(st.integers(0, 6), jg.valid_ids())), max_size=5), ecls),
             st.builds(lambda e, c: {'kind': 'batch_error', 'error': e, 'error_cls': c}, error_strategy(), ecls),
+            program_strategy(),
         )
 
     def corpus(self):
@@ -194,13 +224,75 @@ class C05(Check):
             {'kind': 'batch_request', 'requests': []},
             {'kind': 'batch_response', 'responses': [{'id': 1, 'error': {'cls': 'JsonRpcError', 'code': 12345, 'message': 'm', 'data': {'absent': True}}}], 'error_cls': 'PlainBase'},
             {'kind': 'batch_response', 'responses': [{'id': 1, 'error': {'cls': 'IndepA', 'code': None, 'message': None, 'data': {'absent': True}}}], 'error_cls': 'IndepBase'},
+            {'kind': 'batch_program', 'target': 'request', 'initial': [{'method': 'm', 'params': none, 'id': 1}], 'ops': [
+                {'op': 'serialise', 'how': 'to_json'}, {'op': 'extend', 'items': [{'method': 'n', 'params': none, 'id': 2}]}, {'op': 'serialise', 'how': 'JSONEncoder'},
+                {'op': 'append', 'items': [{'method': 'o', 'params': none, 'id': None}]}, {'op': 'read'}]},
+            {'kind': 'batch_program', 'target': 'response', 'initial': [], 'ops': [
+                {'op': 'serialise', 'how': 'server.JSONEncoder'}, {'op': 'append', 'items': [{'id': 1, 'result': None}]}, {'op': 'serialise', 'how': 'to_json'},
+                {'op': 'extend', 'items': [{'id': 2, 'result': 1}, {'id': 3, 'error': {'cls': 'JsonRpcError', 'code': 5, 'message': 'm', 'data': {'absent': True}}}]}]},
             {'kind': 'batch_error', 'error': {'cls': 'InvalidRequestError', 'code': None, 'message': None, 'data': {'value': 'x'}}, 'error_cls': 'JsonRpcError'},
         ]
 
     # ---- run --------------------------------------------------------------------------------------
 
+    def run_program(self, spec: Any) -> Outcome:
+        """one batch object through a history of growth and serialisation steps: at every serialisation and at the end the wire form
+        is the reference wire form of exactly the elements added so far, in order"""
+        target = spec['target']
+        build, wire = (build_request, wire_request) if target == 'request' else (build_response, wire_response)
+        cls = pjrpc.BatchRequest if target == 'request' else pjrpc.BatchResponse
+        obj = cls(*[build(x) for x in spec['initial']])
+        model = [wire(x) for x in spec['initial']]
+        discs: List[Disc] = []
+        serialised_before_growth = False
+        serialised = False
+
+        def check(step: Any, how: str) -> None:
+            try:
+                if how == 'to_json':
+                    got = obj.to_json()
+                else:
+                    got = json.loads(json.dumps(obj, cls=pjrpc.JSONEncoder if how == 'JSONEncoder' else pjrpc.server.JSONEncoder))
+            except Exception as e:
+                discs.append(Disc(f"C05/batch_program/{target}/serialise-crash/{type(e).__name__}", f"step {step}: {e}"[:300]))
+                return
+            if not jg.jeq(got, model):
+                discs.append(Disc(f"C05/batch_program/{target}/wire-form-after-history", f"step {step} ({how}): {jg.short(got)} expected {jg.short(model)} | "
+                                                                                            f"history {jg.short(spec['ops'], 400)}"))
+
+        for n, o in enumerate(spec['ops']):
+            if o['op'] == 'append':
+                for x in o['items']:
+                    obj.append(build(x))
+                    model.append(wire(x))
+                    serialised_before_growth = serialised_before_growth or serialised
+            elif o['op'] == 'extend':
+                obj.extend([build(x) for x in o['items']])
+                model += [wire(x) for x in o['items']]
+                if o['items']:
+                    serialised_before_growth = serialised_before_growth or serialised
+            elif o['op'] == 'serialise':
+                check(n, o['how'])
+                serialised = True
+            else:
+                if len(obj) != len(model):
+                    discs.append(Disc(f"C05/batch_program/{target}/length", f"step {n}: len {len(obj)} expected {len(model)}"))
+                ids = [x.id for x in obj]
+                if not jg.jeq(ids, [m.get('id') for m in model]):
+                    discs.append(Disc(f"C05/batch_program/{target}/iteration", f"step {n}: ids {ids!r} expected {[m.get('id') for m in model]!r}"))
+                if target == 'request' and obj.is_notification != all('id' not in m for m in model):
+                    discs.append(Disc("C05/batch_program/request/is_notification", f"step {n}: {obj.is_notification} for {jg.short(model)}"))
+        check('end', 'to_json')
+        check('end', 'JSONEncoder')
+        classes = ['batch_program', f'batch_program/{target}']
+        if serialised_before_growth:
+            classes.append('batch_program/grown-after-serialisation')
+        return Outcome(discs, serialised_before_growth, classes)
+
     def run_case(self, spec: Any) -> Outcome:
         kind = spec['kind']
+        if kind == 'batch_program':
+            return self.run_program(spec)
         ecn = spec.get('error_cls', 'JsonRpcError')
         ecls = he.BY_NAME[ecn]
         classes = [kind if kind != 'response' else ('response/error' if 'error' in spec['response'] else 'response/result')]
